@@ -226,6 +226,7 @@ PROPS = {
     "C17": {
         "streams": [
             {"name": "tap", "mode": "tap", "quick": 500, "thorough": 12000, "args": []},
+            {"name": "probe", "mode": "probe", "quick": 1500, "thorough": 30000, "args": ["--probes", "200"]},
         ],
         "relevant": panic_or({"infer", "minfer", "nogood", "bad", "implicit"}, ["tap"]),
         "lean_modules": ["Pumpkin.Model.ImplicitReason"],
